@@ -2,14 +2,14 @@
 //! The callee angle_to_2pi uses `%`, which CBMC does not model bit-exactly (DESIGN.md section 8; probed again here:
 //! CBMC's `3.158 % 2pi` is not 3.158), so nothing in this file goes through CBMC's fmod: angle_to_2pi is always replaced
 //! by its verified contract (`stub_verified`: precondition checked, result = ANY double in [0, 2pi]).
-//! What can be stated without naming the value the stub returned:
+//! Stated without naming the value the stub returned (`interval_contains_fullturn`, quick tier):
 //!   * no panic / overflow / NaN for every start, extent and every normalised angle in [0, 2pi];
-//!   * a full-turn interval (extent == 2pi) contains every angle and intersects every interval - bit-precisely, i.e. the
-//!     tolerance arithmetic `start + extent + TOL` and the `+ 2pi` representative never lose a normalised angle.
-//! The full two-representative definition (Verus unit `angles`, `sp_contains`, over the reals) needs the normalised value and
-//! is therefore only checked DIRECTLY, under CBMC's fmod model, by the thorough-tier harness `interval_contains_direct`.
-//! Chain of contracts: angle_to_2pi (verified, fmod model) -> contains (this file, stub_verified(angle_to_2pi))
-//!                     -> intersects (this file, stub_verified(contains)).
+//!   * a full-turn interval (extent == 2pi) contains every angle and intersects every interval.
+//! `interval_contains_modular` proves the full two-representative definition (Verus unit `angles`, `sp_contains`, there over
+//! the reals; here in double arithmetic with the association order of the code): the value the stubbed angle_to_2pi
+//! returned is read back from `angles::LAST_TO_2PI`, which its postcondition predicate stores (Kani only), so the claim
+//! holds for EVERY normalised angle t in [0, 2pi], every start in [0, 2pi] and every extent.
+//! `interval_intersects_modular`: intersects is wired to the two membership tests (short circuit observed through the log).
 use super::angles::{in_domain, in_quick, post_to_2pi};
 use super::Src;
 use crate::common::{angle_to_2pi, AngleInterval};
@@ -45,7 +45,15 @@ pub fn h_contains_modular_replay<S: Src>(s: &mut S) {
     s.assume(i.start() == st && angle_to_2pi(realise(t)) == t);
     let r = i.contains(realise(t));
     s.check(wf(i.start(), i.angle()), "AngleInterval::new: start and extent in [0, 2pi]");
-    s.check(post_contains(i.angle(), r), "a full-turn interval contains every angle");
+    check_contains(s, st, i.angle(), t, r);
+}
+/// the two-representative definition and its set-level consequences, for a normalised angle t
+fn check_contains<S: Src>(s: &mut S, st: f64, e: f64, t: f64, r: bool) {
+    s.check(r == two_rep(st, e, t), "contains <=> the normalised angle or its +2pi representative lies in [start - TOL, start + extent + TOL]");
+    s.check(post_contains(e, r), "a full-turn interval contains every angle");
+    if t == st { s.check(r, "an interval contains its own start"); }
+    if t >= st && t <= st + e { s.check(r, "an angle of the exact swept set [start, start + extent] is contained"); }
+    if t + 2.0 * PI >= st && t + 2.0 * PI <= st + e { s.check(r, "an angle whose +2pi representative is in the exact swept set is contained"); }
 }
 /// direct form (through the real `%` natively / CBMC's fmod model under Kani): the two-representative definition
 pub fn h_contains_direct<S: Src>(s: &mut S, dom: f64) {
@@ -96,24 +104,8 @@ mod proofs {
         i
     }
 
-    // in-place contract of contains, against angle_to_2pi's contract only
-    #[kani::proof_for_contract(AngleInterval::contains)] #[kani::stub_verified(angle_to_2pi)]
-    fn contract_interval_contains() {
-        let x: f64 = kani::any();
-        kani::assume(in_quick(x));
-        let i = any_interval_modular();
-        kani::cover!(i.angle() == 2.0 * PI && i.start() > 6.0);
-        kani::cover!(i.angle() < 1.0);
-        i.contains(x);
-    }
-    // in-place contract of intersects, against contains' contract only
-    #[kani::proof_for_contract(AngleInterval::intersects)] #[kani::stub_verified(AngleInterval::contains)] #[kani::stub_verified(angle_to_2pi)]
-    fn contract_interval_intersects() {
-        let i = any_interval_modular();
-        let j = any_interval_modular();
-        kani::cover!(j.angle() == 2.0 * PI && i.angle() < 1.0);
-        i.intersects(&j);
-    }
+    // no in-place contract lines for contains / intersects: the store into LAST_TO_2PI happens inside them under
+    // stub_verified(angle_to_2pi) and would have to be declared in a `modifies` clause of each (and of their callers)
     // the same two statements as plain harnesses (replayable), plus absence of panics on the whole domain
     #[kani::proof] #[kani::stub_verified(angle_to_2pi)]
     fn interval_contains_modular() {
@@ -121,19 +113,38 @@ mod proofs {
         kani::assume(in_quick(a) && in_quick(e) && in_quick(x));
         let i = AngleInterval::new(a, e);
         let r = i.contains(x);
-        kani::cover!(r && i.angle() < 1.0);
+        // the value the stubbed angle_to_2pi returned inside contains (logged by its postcondition predicate)
+        let t = unsafe { crate::verif_kani::angles::LAST_TO_2PI };
+        kani::cover!(r && i.angle() < 1.0 && t < i.start());
         kani::cover!(!r);
         assert!(wf(i.start(), i.angle()), "AngleInterval::new: start and extent in [0, 2pi]");
-        assert!(post_contains(i.angle(), r), "a full-turn interval contains every angle");
+        assert!(post_to_2pi(t), "logged value is a normalised angle");
+        check_contains(&mut Sym, i.start(), i.angle(), t, r);
     }
     #[kani::proof] #[kani::stub_verified(angle_to_2pi)]
     fn interval_intersects_modular() {
         let i = any_interval_modular();
         let j = any_interval_modular();
         let r = i.intersects(&j);
+        // the LAST normalised value: of the first membership test when it succeeded (short circuit), else of the second
+        let t = unsafe { crate::verif_kani::angles::LAST_TO_2PI };
         kani::cover!(r && i.angle() < 1.0 && j.angle() < 1.0);
         kani::cover!(!r);
         assert!(post_intersects(i.angle(), j.angle(), r), "a full-turn interval intersects every interval");
+        if r { assert!(two_rep(i.start(), i.angle(), t) || two_rep(j.start(), j.angle(), t), "intersects is true only if one of the two membership tests holds"); }
+        else { assert!(!two_rep(j.start(), j.angle(), t), "intersects is false only if the second membership test fails"); }
+    }
+
+    #[kani::proof] #[kani::stub_verified(angle_to_2pi)]
+    fn interval_contains_fullturn() {
+        let a: f64 = kani::any(); let e: f64 = kani::any(); let x: f64 = kani::any(); // same draw order as the replay body
+        kani::assume(in_quick(a) && in_quick(e) && in_quick(x));
+        let i = AngleInterval::new(a, e);
+        assert!(wf(i.start(), i.angle()), "AngleInterval::new: start and extent in [0, 2pi]");
+        let r = i.contains(x);
+        kani::cover!(r && i.angle() < 1.0);
+        kani::cover!(!r);
+        assert!(post_contains(i.angle(), r), "a full-turn interval contains every angle");
     }
 
     // thorough tier: the full definition, directly, under CBMC's fmod model (|angles| <= 8)
